@@ -126,7 +126,8 @@ def _forwards(f, b, v, kind, traits):
     whose result is returned; for pure wrappers that is the only Source call"""
     cands = []
     n_trait_calls = 0
-    for pt, t in b.calls():
+    all_calls = [(m, pt, t) for m in group_members(f, b) for pt, t in m.calls()]
+    for m, pt, t in all_calls:
         c = t.get('callee')
         if not c or (c.get('trait') not in traits and c.get('impl_trait') not in traits):
             continue
@@ -137,23 +138,31 @@ def _forwards(f, b, v, kind, traits):
         # args[1:] must be own params 2.. in order
         ok_args = True
         for i, a in enumerate(t['args'][1:]):
-            roots = [(root, fs) for root, fs in access_paths(b.expr_of_operand(a), through_calls={'deref', 'borrow'})]
-            if not roots or not all(root[0] == 'arg' and root[1] == i + 2 and not fs for root, fs in roots):
+            roots = [(root, fs) for root, fs in access_paths(m.expr_of_operand(a), through_calls={'deref', 'borrow'})]
+            if not roots or not all(root[0] == 'arg' and root[3] == b.key and root[1] == i + 2 and not fs for root, fs in roots):
                 ok_args = False
         # receiver must not be self itself
-        recv = b.expr_of_operand(t['args'][0])
-        self_recv = any(root[0] == 'arg' and root[1] == 1 and not fs for root, fs in access_paths(recv, through_calls={'deref', 'borrow'}))
+        recv = m.expr_of_operand(t['args'][0])
+        self_recv = any(root[0] == 'arg' and root[3] == b.key and root[1] == 1 and not fs
+                        for root, fs in access_paths(recv, through_calls={'deref', 'borrow'}))
         if kind == 'box':
             # receiver is the Arc's pointee: as_ref()/deref of self
             self_recv = False
         # result returned?
-        returned = t['dest']['l'] == 0 and not t['dest']['pr']
+        returned = m is b and t['dest']['l'] == 0 and not t['dest']['pr']
         if not returned:
-            e0 = b.expr_of_local(0)
+            from ..ir import inline
+            e0 = inline(f, b.expr_of_local(0), depth=2)
             for x in walk(e0):
-                if x[0] == 'call' and x[3] == pt:
+                if x[0] == 'call' and x[3] == pt and x[1] == t['callee']['path']:
                     returned = True
-        cands.append((ok_args, not self_recv, returned, t))
+            if not returned and m is not b:
+                # the call sits in a closure of this function (e.g. the miss path handed to unwrap_or_else): its value must be
+                # (part of) what that closure returns
+                for x in walk(inline(f, m.expr_of_local(0), depth=2)):
+                    if x[0] == 'call' and x[3] == pt and x[1] == t['callee']['path']:
+                        returned = True
+        cands.append((ok_args, not self_recv, returned, t, m))
     good = [c for c in cands if all(c[:3])]
     if not good:
         if not cands:
@@ -164,7 +173,7 @@ def _forwards(f, b, v, kind, traits):
         return False, 'a pure wrapper must make exactly one Source call, found %d' % n_trait_calls
     if kind == 'concat-single':
         t = good[0][3]
-        recv = b.expr_of_operand(t['args'][0])
+        recv = (good[0][4] if len(good[0]) > 4 else b).expr_of_operand(t['args'][0])
         if not any((x[0] in ('index', 'cindex')) or (x[0] == 'call' and x[1].rsplit('::', 1)[-1] in ('index', 'get', 'first'))
                    for x in walk(recv)):
             return False, 'fast path does not forward to an element of the child vector'
